@@ -138,7 +138,9 @@ func computeRenames(p *Prog) {
 				continue
 			}
 			id := identityOf(f)
-			if id.Recv != old.Recv || id.Sig != old.Sig {
+			if id.Recv == old.Recv && stripParamNames(id.Sig) == stripParamNames(old.Sig) {
+				// the same but for the names of its parameters
+			} else if id.Recv != old.Recv || id.Sig != old.Sig {
 				// a method that became a plain function taking its receiver first, or the reverse - or a method whose
 				// receiver was not needed and was dropped on the way (callers' arguments are then shifted by one, which
 				// CallArgs makes up for with a placeholder)
